@@ -375,7 +375,7 @@ func runCase(e *Env, idx int, c *Case, limit time.Duration) (*Out, error) {
 			}
 			toKind, toAt := reqShape(u.To)
 			emit(Event{"ev": "Base", "k": k, "name": u.Name, "base": verTuple(baseS), "after": verTuple(afterS), "src": baseSrc,
-				"toKind": toKind, "toAt": toAt, "hard": s.hardInvolved(u)})
+				"toKind": toKind, "toAt": toAt, "hard": s.hardInvolved(u), "fromRange": isRangeReq(u.From)})
 			data := map[string]any{"patch": a, "update": u, "base": baseS, "after": afterS, "level": lvl, "applied": applied}
 			if lvl == "none" {
 				fail("C11", "none-touched", fmt.Sprintf("package %s is configured as not upgradable but the patch rewrites its requirement %q -> %q", u.Name, u.From, u.To), data)
@@ -693,7 +693,7 @@ func runCase(e *Env, idx int, c *Case, limit time.Duration) (*Out, error) {
 			}
 			toKind, toAt := reqShape(u.To)
 			emit(Event{"ev": "Base", "k": x.k, "name": u.Name, "base": verTuple(baseS), "after": verTuple(afterS), "src": "applied-combination",
-				"toKind": toKind, "toAt": toAt, "hard": s.hardInvolved(u)})
+				"toKind": toKind, "toAt": toAt, "hard": s.hardInvolved(u), "fromRange": isRangeReq(u.From)})
 			bv, ok1 := ParseVer(baseS)
 			av, ok2 := ParseVer(afterS)
 			if !ok1 || !ok2 {
